@@ -135,6 +135,7 @@ def _global_case(c):
     if not np.max(err) <= 1e-9:
         i, j = np.unravel_index(int(np.argmax(err)), err.shape)
         fails.append(fail("hierarchise_interpolate_identity", "unit function of %r at %r: %r" % (pts[j], pts[i], V[i, j]), key))
+    fails += _layout_failures(g, d, N, key)
     # the same identity with integer-typed function values
     g.integrate(_identity_function(pts, integer=True), lv, np.array(a, dtype=float), np.array(b, dtype=float))
     Vi = np.asarray(g.interpolate(pts, ComponentGridInfo(lv, 1)), dtype=float)
@@ -174,6 +175,36 @@ def _global_case(c):
     return fails, (N,)
 
 
+def _layout_failures(g, d, N, key):
+    """direct call HierarchizationLSG(grid)(values, numPoints, grid): the surpluses must not depend on the memory layout of the value
+    array (C-contiguous as the integrator allocates it, Fortran-ordered, or the transposed view a caller gets from stacking the
+    function values point by point)"""
+    from sparseSpACE.Hierarchization import HierarchizationLSG
+    try:
+        npts = [len(g.get_coordinates_dim(k)) for k in range(d)]
+    except Exception:
+        return []
+    if N < 2 or int(np.prod(npts)) != N:
+        return []
+    nc = min(N, 3)
+    base = np.array([[(1.0 if i == j else 0.0) + 0.01 * (i + 2 * j + 1) for j in range(N)] for i in range(nc)])      # values[component, point]
+    try:
+        ref = np.array(HierarchizationLSG(g)(np.ascontiguousarray(base.copy()), list(npts), g), dtype=float)
+    except Exception:
+        return []          # no direct call possible for this grid: nothing to compare
+    out = []
+    for name, arr in (("fortran", np.asfortranarray(base.copy())), ("transposed", np.array([base[:, j].copy() for j in range(N)]).T)):
+        try:
+            got = np.array(HierarchizationLSG(g)(arr, list(npts), g), dtype=float)
+        except Exception as e:
+            out.append(fail("hierarchisation_depends_on_array_layout", "%s value array: %s: %s" % (name, type(e).__name__, str(e)[:100]), dict(key, layout=name)))
+            continue
+        if got.shape != ref.shape or not np.allclose(got, ref, rtol=1e-10, atol=1e-12):
+            out.append(fail("hierarchisation_depends_on_array_layout", "%s value array (%d components, %r points): surpluses %r, with a C-contiguous array %r"
+                            % (name, nc, npts, got.ravel()[:4].tolist(), ref.ravel()[:4].tolist()), dict(key, layout=name)))
+    return out
+
+
 def _local_case(c):
     kind, bd = tuple(c["basis"]), c["boundary"]
     a, b, s, e, lv = c["a"], c["b"], c["start"], c["end"], c["level"]
@@ -194,6 +225,7 @@ def _local_case(c):
     if not np.max(err) <= 1e-9:
         i, j = np.unravel_index(int(np.argmax(err)), err.shape)
         fails.append(fail("hierarchise_interpolate_identity", "unit function of %r at %r: %r" % (pts[j], pts[i], V[i, j]), key))
+    fails += _layout_failures(g, d, N, key)
     if d == 1:
         g1 = g.grids[0]
         gauss = (getattr(g1, "coords_gauss", None), getattr(g1, "weights_gauss", None))
